@@ -78,7 +78,7 @@ fn tag_value() -> impl Strategy<Value = String> {
 }
 
 fn db_strategy() -> impl Strategy<Value = RawDb> {
-    let game = (gen::raw_playout(120), 1..=16u8, proptest::collection::vec(tag_value(), 16), 0..6u8, 0..4u8, any::<u8>(), any::<u32>()).prop_map(|(play, ntags, tagvals, style, result, zero, salt)| RawGame { play, ntags, tagvals, style, result, zero: zero % 10 == 0, salt });
+    let game = (prop_oneof![12 => gen::raw_playout(120), 1 => gen::raw_playout(700)], 1..=16u8, proptest::collection::vec(tag_value(), 16), 0..6u8, 0..4u8, any::<u8>(), any::<u32>()).prop_map(|(play, ntags, tagvals, style, result, zero, salt)| RawGame { play, ntags, tagvals, style, result, zero: zero % 10 == 0, salt });
     let chunk = prop_oneof![4 => 1..=64u16, 1 => Just(8192u16), 1 => 65..=300u16];
     let chunk_b = prop_oneof![4 => 1..=64u16, 1 => Just(8192u16), 1 => 65..=300u16];
     (proptest::collection::vec(game, 0..=8), 0..5u8, chunk, proptest::collection::vec(1..=20u8, 0..12), chunk_b, proptest::collection::vec(1..=20u8, 0..12)).prop_map(|(games, trailing, chunk, frags, chunk2, frags2)| RawDb { games, trailing, chunk, frags, chunk2, frags2 })
@@ -283,6 +283,10 @@ pub fn check_db(d: &Db, ctx: &mut Ctx) -> Result<(), String> {
         ctx.class("no_final_newline");
     }
     for g in &d.games {
+        if g.moves.len() > 510 {
+            ctx.class("game_longer_than_255_moves");
+            nt = true;
+        }
         if g.moves.is_empty() {
             ctx.class("zero_move_game");
         }
